@@ -238,6 +238,7 @@ func plant(raw M, n metamodel.Node, form string) []byte {
 func posName(n metamodel.Node) string { return strings.TrimPrefix(n.Kind, "Ref:") + "<" + n.Parent }
 
 var entries = []string{"data", "datawithpath", "uri", "file"}
+
 // the last three: characters that mean something in a URL but are ordinary in a file name
 var roots = []string{"/w/api/root.json", "api/root.json", "root.json", "api/ro#ot.json", "api/r%41t.json", "/w/ro?t.json"}
 
